@@ -5,7 +5,7 @@ import numpy as truenp
 
 from prysm.conf import config
 from prysm.mathops import np, fft, is_odd
-from prysm.fttools import forward_ft_unit, fourier_resample, crop_center, pad2d
+from prysm.fttools import forward_ft_unit, fourier_resample, crop_center, pad2d, mdft
 from prysm.convolution import apply_transfer_functions
 from prysm.coordinates import (
     warp,
@@ -64,6 +64,43 @@ def prepare_actuator_lattice(shape, Nact, sep, dtype):
         'ixx': ixx,
         'iyy': iyy,
     }
+
+
+def fourier_resample_backprop(fbar, zoom, in_shape):
+    """Gradient backpropagation for fttools.fourier_resample.
+
+    Parameters
+    ----------
+    fbar : ndarray
+        gradient with respect to the output of fourier_resample(f, zoom)
+    zoom : float or tuple of float
+        the zoom given to fourier_resample
+    in_shape : tuple of int
+        f.shape
+
+    Returns
+    -------
+    ndarray
+        gradient with respect to f, of shape in_shape
+
+    """
+    # fourier_resample is f -> real(idft2(fftshift(fft2(ifftshift(f))), zoom)) * (zoom_y*zoom_x/sqrt(f.size))
+    # this applies the conjugate transposes in reverse order; resampling fbar with the reciprocal zoom is
+    # not the adjoint, because the two use different sets of spatial frequencies
+    if zoom == 1:
+        return fbar
+
+    if isinstance(zoom, (float, int)):
+        zoom = (zoom, zoom)
+    elif not isinstance(zoom, tuple):
+        zoom = tuple(float(zoom) for zoom in zoom)
+
+    m, n = in_shape
+    Fbar = mdft.idft2_backprop(fbar, zoom, (m, n))
+    # conjugate transpose of the unnormalized fft2 is ifft2 * size; the shifts are permutations
+    fbar = fft.fftshift(fft.ifft2(fft.ifftshift(Fbar))).real
+    fbar *= (zoom[0]*zoom[1])*np.sqrt(m*n)
+    return fbar
 
 
 def prepare_fwd_reverse_projection_coordinates(shape, rot):
@@ -316,8 +353,7 @@ class DM:
             protograd = pad2d(protograd, out_shape=self.Nintermediate)
 
         if self.upsample != 1:
-            upsample = self.ifn.shape[0]/protograd.shape[0]
-            protograd = fourier_resample(protograd, upsample)
+            protograd = fourier_resample_backprop(protograd, self.upsample, self.ifn.shape)
 
         if wfe:
             protograd *= (2*self.obliquity)
